@@ -346,7 +346,7 @@ func init() {
 			res := scalarV(sig.Results().At(0).Type(), mkIte(isErr, mkInt(sortRef, 0), boxed.scalar()))
 			return []Value{res, e}
 		})
-		for _, nm := range []string{"(*net.UDPConn).Close", "(*net.UDPConn).SetDeadline", "(*net.UDPConn).SetReadDeadline"} {
+		for _, nm := range []string{"(*net.UDPConn).Close", "(*net.UDPConn).SetDeadline", "(*net.UDPConn).SetReadDeadline", "(*net.conn).Close", "(*net.conn).SetDeadline", "(*net.conn).SetReadDeadline"} {
 			reg(nm, "no effect on tracked state; error arbitrary", func(ex *Exec, st *State, c *ast.CallExpr, r *Value, a []Value) []Value {
 				e := freshValue("neterr", ex.vc.errT)
 				st.assumeValid(e)
@@ -445,6 +445,14 @@ func init() {
 		id := freshVar("serbuf", sortRef)
 		st.assume(mkCmp("lt", mkInt(sortRef, 0), id))
 		return []Value{scalarV(sig.Results().At(0).Type(), id)}
+	})
+	reg("(net.IP).To4", "returns nil or a 4-byte slice; the receiver is not modified", func(ex *Exec, st *State, c *ast.CallExpr, r *Value, a []Value) []Value {
+		sig := ex.info().TypeOf(c.Fun).(*types.Signature)
+		v := freshValue("to4", sig.Results().At(0).Type())
+		st.assumeValid(v)
+		isNil := mkEq(v.L[".ref"], mkInt(sortRef, 0))
+		st.assume(mkOr(mkAnd(isNil, mkEq(v.L[".len"], mkInt(sortInt, 0))), mkAnd(mkNot(isNil), mkEq(v.L[".len"], mkInt(sortInt, 4)))))
+		return []Value{v}
 	})
 	// ---- byte streams: arbitrary data from the peer ----
 	{
